@@ -190,16 +190,23 @@ func c18RacePhase(dir, id, tier string, seed uint64, knownPath string, agg *aggr
 	if first == nil {
 		return notes, nil
 	}
-	// confirm in isolation
+	// confirm in isolation.  The detector keeps only a few recent accesses per
+	// memory word and evicts them at random, so a genuine race between two
+	// accesses that are far apart is reported with a probability < 1 on each
+	// execution: the same run is tried several times before giving up.
 	logp := filepath.Join(dir, "race-confirm")
-	out := filepath.Join(dir, "race-confirm.json")
-	cmd := exec.Command(raceBin, "run", "-prop", id, "-tier", tier, "-seed", strconv.FormatUint(seed, 10),
-		"-start", strconv.Itoa(first.run), "-count", "1", "-known", knownPath, "-out", out, "-hang", "120s")
-	cmd.Env = append(os.Environ(), raceEnv(logp)...)
-	cerr := cmd.Run()
-	var ee *exec.ExitError
-	if !(errors.As(cerr, &ee) && ee.ExitCode() == 66) {
-		fmt.Fprintf(os.Stderr, "verif: the race detector reported a race during run %d but the run alone reports none: not reproducible, no verdict\n%s\n", first.run, first.log)
+	confirmed := false
+	for attempt := 0; attempt < 8 && !confirmed; attempt++ {
+		out := filepath.Join(dir, "race-confirm.json")
+		cmd := exec.Command(raceBin, "run", "-prop", id, "-tier", tier, "-seed", strconv.FormatUint(seed, 10),
+			"-start", strconv.Itoa(first.run), "-count", "1", "-known", knownPath, "-out", out, "-hang", "120s")
+		cmd.Env = append(os.Environ(), raceEnv(logp)...)
+		cerr := cmd.Run()
+		var ee *exec.ExitError
+		confirmed = errors.As(cerr, &ee) && ee.ExitCode() == 66
+	}
+	if !confirmed {
+		fmt.Fprintf(os.Stderr, "verif: the race detector reported a race during run %d but 8 executions of that run alone report none: not reproducible, no verdict\n%s\n", first.run, first.log)
 		os.Exit(2)
 	}
 	report := readRaceLogs(logp)
@@ -223,22 +230,24 @@ func c18Replay(dir, path string, rf *replayFile) int {
 	knownPath := filepath.Join(dir, "known.json")
 	os.WriteFile(knownPath, []byte("[]"), 0o644)
 	logp := filepath.Join(dir, "race-replay")
-	cmd := exec.Command(raceBin, "replay", "-file", path, "-known", knownPath)
-	cmd.Env = append(os.Environ(), raceEnv(logp)...)
-	b, rerr := cmd.CombinedOutput()
-	os.Stdout.Write(b)
-	var ee *exec.ExitError
-	if errors.As(rerr, &ee) && ee.ExitCode() == 66 {
-		report := readRaceLogs(logp)
-		sig, excerpt := raceSignature(report)
-		fmt.Println(excerpt)
-		if sig == rf.Signature {
-			fmt.Println("REPRODUCED")
-		} else {
-			fmt.Printf("race reproduced with another pair of frames: %s (recorded %s)\n", sig, rf.Signature)
+	for attempt := 0; attempt < 10; attempt++ {
+		cmd := exec.Command(raceBin, "replay", "-file", path, "-known", knownPath)
+		cmd.Env = append(os.Environ(), raceEnv(logp)...)
+		b, rerr := cmd.CombinedOutput()
+		var ee *exec.ExitError
+		if errors.As(rerr, &ee) && ee.ExitCode() == 66 {
+			os.Stdout.Write(b)
+			report := readRaceLogs(logp)
+			sig, excerpt := raceSignature(report)
+			fmt.Println(excerpt)
+			if sig == rf.Signature {
+				fmt.Printf("REPRODUCED (execution %d of at most 10: the detector's shadow memory is sampled)\n", attempt+1)
+			} else {
+				fmt.Printf("race reproduced with another pair of frames: %s (recorded %s)\n", sig, rf.Signature)
+			}
+			fmt.Printf("VIOLATION property=%s replay=%s\n", rf.Property, path)
+			return 1
 		}
-		fmt.Printf("VIOLATION property=%s replay=%s\n", rf.Property, path)
-		return 1
 	}
 	fmt.Println("NOT-REPRODUCED")
 	return 0
